@@ -130,6 +130,9 @@ def _wrapper_table(a):
                     and norm(s.value.func.value) == 'self':
                 call = s.value
                 kws = {k.arg: ast.literal_eval(k.value) for k in call.keywords if k.arg and _is_lit(k.value)}
+                argtext = ' '.join(norm(x) for x in [*call.args, *[k.value for k in call.keywords]])
+                needs = [d for d, att in (('exp', '.func'), ('sep', '.sep_func')) if att in argtext]
+                kws['__registers__'] = needs
                 core = (call.func.attr, kws)
         if core:
             table[name] = core
@@ -202,6 +205,11 @@ def _generated_primitive(a, node: Stub, wrappers):
     if name in wrappers:
         core, wk = wrappers[name]
         name, kws = core, dict(wk)
+        needs = kws.pop('__registers__', [])
+        var = re.search(r' as (\w+):', lines[0])
+        for d in needs:
+            if not var or f'@{var.group(1)}.{d}' not in text:
+                kws[f'unregistered_{d}'] = True
     return (name, consts, kws), lines
 
 
